@@ -110,6 +110,98 @@ func Link(oldname, newname string) error {
 	return nil
 }
 
+// Glob is filepath.Glob over the simulated files: a name matches when the whole (absolute) path
+// matches the pattern component by component; results come in lexical order.
+func Glob(pattern string) ([]string, error) {
+	enter()
+	defer leave()
+	if W == nil {
+		return filepath.Glob(pattern)
+	}
+	if _, err := filepath.Match(pattern, ""); err != nil {
+		return nil, err
+	}
+	abs := pattern
+	if !filepath.IsAbs(abs) {
+		abs = filepath.Join(W.Cwd, pattern)
+	} else {
+		abs = filepath.Clean(abs)
+	}
+	seq, _ := W.begin(OpReadDir, abs)
+	W.log(&TraceEv{Seq: seq, Op: OpReadDir, Path: abs, Res: "glob"})
+	out := []string{}
+	for _, k := range W.sortedPaths() {
+		if ok, _ := filepath.Match(abs, k); ok {
+			if filepath.IsAbs(pattern) {
+				out = append(out, k)
+			} else if rel, err := filepath.Rel(W.Cwd, k); err == nil {
+				out = append(out, rel)
+			}
+		}
+	}
+	if len(out) == 0 {
+		return nil, nil
+	}
+	return out, nil
+}
+
+// WalkDir is filepath.WalkDir over the simulated files (lexical order, like the real one).
+func WalkDir(root string, fn fs.WalkDirFunc) error {
+	enter()
+	defer leave()
+	if W == nil {
+		return filepath.WalkDir(root, fn)
+	}
+	info, err := Lstat(root)
+	if err != nil {
+		err = fn(root, nil, err)
+	} else {
+		err = walkDir(root, dirEntry{info.(fileInfo)}, fn)
+	}
+	if err == filepath.SkipDir || err == filepath.SkipAll {
+		return nil
+	}
+	return err
+}
+
+func walkDir(path string, d fs.DirEntry, fn fs.WalkDirFunc) error {
+	if err := fn(path, d, nil); err != nil || !d.IsDir() {
+		if err == filepath.SkipDir && d.IsDir() {
+			err = nil
+		}
+		return err
+	}
+	entries, err := W.readDir(path)
+	if err != nil {
+		if err = fn(path, d, err); err != nil {
+			if err == filepath.SkipDir && d.IsDir() {
+				err = nil
+			}
+			return err
+		}
+	}
+	for _, e := range entries {
+		if err := walkDir(filepath.Join(path, e.Name()), e, fn); err != nil {
+			if err == filepath.SkipDir {
+				break
+			}
+			return err
+		}
+	}
+	return nil
+}
+
+// Walk is filepath.Walk over the simulated files.
+func Walk(root string, fn filepath.WalkFunc) error {
+	return WalkDir(root, func(p string, d fs.DirEntry, err error) error {
+		var info fs.FileInfo
+		if d != nil {
+			info, _ = d.Info()
+		}
+		return fn(p, info, err)
+	})
+}
+
 // LookPath is exec.LookPath in the simulated world: the simulated PATH, the simulated files.
 func LookPath(file string) (string, error) {
 	enter()
